@@ -12,6 +12,7 @@ from .. import universal as U
 from ..monitor import snap
 
 ID = 'C20'
+TECHNIQUE = 'runtime monitoring: identity / frame / container monitors (U2) on every derivation route, mutation histories with before/after snapshots of the other object, icontract class invariant on Config plus a direct rejection sweep'
 TITLE = 'independence of objects; inputs not mutated; invalid config rejected'
 RULE = ('U2 monitors on every outermost event: a new object (constructor incl. like=/template/Fxp(x), deepcopy, like, arithmetic incl. constants/out_like, '
         'unary, bitwise, shifts, NumPy functions and methods) shares neither config nor status record nor value memory with any operand/template '
